@@ -54,4 +54,11 @@ INSTANCES = {
     "c11_layout_comment_7": (HDR + "#", 7, "\ntype T()", "the inside of a comment and what follows it", Q, "lang"),
     "c11_layout_in_struct_6": (HDR + "type T(", 6, "a:int)", "what may stand before a field", Q, "lang"),
     "c11_layout_arrow_6": (HDR + "method M()", 6, "()", "what stands between input and output of a method", Q, "lang"),
+    # C12 (termination clause): no repetition of the grammar can match the empty string on any text of these shapes
+    "c12_progress_any_10": ("", 10, "", "the whole text", Q, "progress"),
+    "c12_progress_any_14": ("", 14, "", "the whole text", T, "progress"),
+    "c12_progress_members_14": (HDR, 14, "", "everything after the header", Q, "progress"),
+    "c12_progress_members_18": (HDR, 18, "", "everything after the header", T, "progress"),
+    "c12_progress_types_10": (HDR + "type T(a:", 10, ")", "a type expression", Q, "progress"),
+    "c12_progress_types_14": (HDR + "type T(a:", 14, ")", "a type expression", T, "progress"),
 }
